@@ -223,6 +223,11 @@ def c20_judge(proj, runs):
                 rc, out, err = run_python(r["pyc"])
                 tags = sorted(l for l in out.split("\n") if l.startswith("TAG_"))
                 want_tags = sorted("TAG_" + m for m in proj["tags"])
+                req_tags = sorted("TAG_" + m for m in proj.get("tags_required", proj["tags"]))
+                if tags != want_tags and len(set(tags)) == len(tags) and set(req_tags) <= set(tags) <= set(want_tags):
+                    # modules that are only ever imported without being used may be elided
+                    # (tests/should_ok/many_import/unused_import.er): at most once is all that is asked
+                    want_tags = tags
                 result = [l for l in out.split("\n") if l.startswith("RESULT ")]
                 if rc != 0:
                     bad.append({"run": r["kind"], "seed": r["seed"], "clause": "program_runs",
@@ -248,10 +253,10 @@ TIERS = {
 
 GEN_OPTS = {
     "C19": {"label": "C19", "p_errors": 0.4, "p_poly": 0.12, "p_infer_fail": 0.12,
-            "shapes": ["dag", "dag", "dag", "chain", "diamond", "fanout", "fanout", "self", "cycle2"]},
+            "shapes": ["dag", "dag", "dag", "chain", "diamond", "fanout", "fanout", "self", "cycle2", "idlefan"]},
     "C20": {"label": "C20", "p_errors": 0.15, "p_poly": 0.05,
             "shapes": ["dag", "dag", "chain", "diamond", "fanout", "self", "cycle2", "cycle2",
-                       "cycle2_outside", "cycle3", "twocycles"]},
+                       "cycle2_outside", "cycle3", "twocycles", "idlefan"]},
     # ("overlap" - two cycles sharing an edge - is generated by genproj but not explored by default:
     #  on the unchanged tree its outcome depends on the project path and the schedule, and the
     #  compiled program makes CPython crash at exit; see known_findings.json / DESIGN 9.4)
@@ -364,6 +369,7 @@ def minimise(prop, proj, seeds, bad, w, d, budget_s=120):
                 if not importers(q, m):
                     del q["files"][m + ".er"]
                     q["tags"] = [t for t in q["tags"] if t != m]
+                    q["tags_required"] = [t for t in q.get("tags_required", q["tags"]) if t != m]
                     q["graph"] = {k: [x for x in v if x != m] for k, v in q.get("graph", {}).items() if k != m}
                     again = True
         return q
@@ -610,6 +616,7 @@ def run_check(prop, tier, seed, replay=None):
             path = write_replay(prop, {
                 "engine": "simc", "verif_seed": seed, "project_index": m["idx"],
                 "workload": {"files": m["proj"]["files"], "tags": m["proj"]["tags"],
+                             "tags_required": m["proj"].get("tags_required", m["proj"]["tags"]),
                              "errors": m["proj"].get("errors", []), "expect": m["proj"].get("expect")},
                 "schedule_seeds": m["seeds"], "asan": bool(m["proj"].get("_asan")),
                 "expect": {"clauses": m["sig"], "first": m["bad"][0] if m["bad"] else None},
@@ -694,6 +701,7 @@ def replay_file(prop, path, report):
     with open(path) as fh:
         rp = json.load(fh)
     proj = {"files": rp["workload"]["files"], "tags": rp["workload"]["tags"],
+            "tags_required": rp["workload"].get("tags_required", rp["workload"]["tags"]),
             "errors": rp["workload"].get("errors", []), "expect": rp["workload"].get("expect") or {"result": None},
             "flags": {}}
     use_asan = 1 if (rp.get("asan") and build_asan()) else 0
